@@ -30,6 +30,11 @@ class AbortPath(Exception):
     """The current path is infeasible / cut (assume False)."""
 
 
+class CutPath(Exception):
+    """The path ends here on purpose (e.g. after the preservation check of a loop invariant);
+    its obligations are kept."""
+
+
 class PathState:
     """State local to one explored path (re-created for every re-execution)."""
 
